@@ -27,6 +27,18 @@ fn leaf(dims: &[usize], salt: usize, kind: u8, var: u64) -> Leaf {
             let tiny = if IS_F32 { [1.0e-3, 1.0e-7, 0.25, 1.0e-12, 1.0e-17, 3.0e-19, 0.9990234375, 1.0e-18] } else { [1.0e-3, 1.0e-7, 0.25, 1.0e-12, 1.0e-17, 3.0e-100, 0.9990234375, 1.0e-140] };
             (0..n).map(|i| tiny[(i + salt + var as usize) % tiny.len()]).collect()
         }
+        4 => {
+            // last-dimension rows at very different levels (every exponential still finite): the sums of
+            // exponentials reach 1e300 (f32: 5e34), whose squares are not representable
+            let last = *dims.last().unwrap();
+            let (hi, lo) = if IS_F32 { (80.0, -30.0) } else { (700.0, -100.0) };
+            (0..n).map(|i| (if (i / last) % 2 == 0 { hi } else { lo }) - ((i * 3 + var as usize) % 4) as f64).collect()
+        }
+        5 => {
+            // huge magnitudes whose squares overflow while quotients and their derivatives do not
+            let scale = if IS_F32 { if salt % 2 == 0 { 1.0e25 } else { 1.0e20 } } else if salt % 2 == 0 { 1.0e170 } else { 1.0e160 };
+            vals(n, salt, var).iter().map(|v| v * scale).collect()
+        }
         _ => vals_small(n, salt, var),
     };
     Leaf { dims: dims.to_vec(), vals }
@@ -52,6 +64,8 @@ pub fn single_op_space(tier: Tier, var: u64) -> Vec<Single> {
         (OpK::Relu, 1),
         (OpK::Sigmoid, 2),
         (OpK::Softmax, 2),
+        (OpK::Softmax, 4),
+        (OpK::Sigmoid, 4),
         (OpK::Ln, 3),
         (OpK::Powf(0.5), 3),
         (OpK::Scale(3.0), 3),
@@ -102,6 +116,18 @@ pub fn single_op_space(tier: Tier, var: u64) -> Vec<Single> {
                     },
                 });
             }
+        }
+    }
+    // quotients of huge operands: the square of the denominator overflows, the derivative does not
+    for a in &sh {
+        for b in &sh {
+            if broadcast_dims(a, b).is_none() || numel(a) > 8 || numel(b) > 8 {
+                continue;
+            }
+            out.push(Single {
+                family: "binary-huge",
+                prog: Program { leaves: vec![leaf(a, 0, 5, var), leaf(b, 1, 5, var)], nodes: vec![PNode { op: OpK::Div, args: vec![0, 1] }], retrack: Vec::new(), frozen: Vec::new(), dropped: Vec::new() },
+            });
         }
     }
     // both operands are views of one buffer: an array and a reshape of it with different dimensions
